@@ -158,6 +158,23 @@ var queryMenu = []func(c int) rl.ThreadSpec{
 	func(c int) rl.ThreadSpec { return q(c, "wrr.example.com.", 1, ipLoc1) },
 }
 
+// willFail predicts whether reload thread i returns an error from db.Reload (then it has two steps)
+func willFail(c rl.Case, i int) bool {
+	t := c.Threads[i]
+	if c.Cfg.Timeout0 {
+		return true
+	}
+	if !t.Full {
+		return false
+	}
+	for _, d := range c.Disk {
+		if d.Path == t.Path {
+			return !d.File.OK || (c.Cfg.VKey && !d.File.Key)
+		}
+	}
+	return true // missing path
+}
+
 // randomCase: nq queries x nr reloads (+ on-disk updates), a random interleaving in which
 // threads are (mostly) started only when the write lock is predicted to be free
 func randomCase(r *hlib.Rng, be string, nq, nr int, cache bool) rl.Case {
@@ -227,11 +244,12 @@ func randomCase(r *hlib.Rng, be string, nq, nr int, cache bool) rl.Case {
 		}
 	}
 	started := make([]bool, len(c.Threads))
+	blocked := make([]bool, len(c.Threads))
 	holder := -1
-	for guard := 0; guard < 200; guard++ {
+	for guard := 0; guard < 400; guard++ {
 		var cand []int
 		for i := range c.Threads {
-			if left[i] > 0 {
+			if left[i] > 0 && !blocked[i] {
 				cand = append(cand, i)
 			}
 		}
@@ -243,8 +261,10 @@ func randomCase(r *hlib.Rng, be string, nq, nr int, cache bool) rl.Case {
 			if !r.Chance(1, 12) {
 				continue // would block: mostly avoided, sometimes probed
 			}
-			c.Sched = append(c.Sched, i) // blocked probe; the thread proceeds by itself later
+			// blocked probe: the thread gets its first step by itself when the lock is released
+			c.Sched = append(c.Sched, i)
 			started[i] = true
+			blocked[i] = true
 			continue
 		}
 		c.Sched = append(c.Sched, i)
@@ -254,8 +274,20 @@ func randomCase(r *hlib.Rng, be string, nq, nr int, cache bool) rl.Case {
 			if left[i] == 4 {
 				holder = i
 			}
-			if left[i] == 0 {
+			if left[i] == 0 || (left[i] == 3 && willFail(c, i)) {
+				if left[i] == 3 {
+					left[i] = 0
+				}
 				holder = -1
+				for j := range blocked {
+					if blocked[j] {
+						blocked[j] = false
+						left[j]--
+						if c.Threads[j].Kind == "r" && holder == -1 {
+							holder = j
+						}
+					}
+				}
 			}
 		}
 	}
